@@ -10,6 +10,7 @@ package main
 
 import (
 	"fmt"
+	"math"
 	"go/constant"
 	"go/types"
 	"os"
@@ -389,6 +390,7 @@ func (c *Ctx) isaRequires(st *State, e *IsaEntry) {
 			Eq(d.bs, raw("(isa.regbs "+d.rt.S+")", SBV(64))), BVSle(BVLitI(0, 64), d.rc))))
 		c.W.noteAssumed("register descriptors come from the insts.Regs table (ByteSize is a function of RegType)")
 		isInt := Eq(d.ot, BVLitI(w.instsConst("IntOperand"), 64))
+		wf = And(wf, c.floatOperandWF(d))
 		if opn == "SIMM16" {
 			wf = And(wf, isInt, BVSle(BVLitI(0, 64), d.intv), BVSle(d.intv, BVLitI(0xFFFF, 64)))
 		} else {
@@ -611,6 +613,13 @@ func isaObligations(f *Frame, rst *State, ct *Contract, post *Scope) {
 	inputs := f.isaInputs(entry, e)
 	// Three named obligations per handler: the register state as a whole
 	// (destination value at its width, and nothing else changed), SCC, and PC.
+	results := map[string]Term{"SCC": rst.mem["G_scc"], "VCC": rst.mem["G_vcc"], "EXEC": rst.mem["G_exec"], "PC": rst.mem["G_pc"], "M0": rst.mem["G_m0"]}
+	if _, hasD := e.Ops["D"]; hasD {
+		d := c.operandDesc(entry, c.instField(entry, inst, "Dst"))
+		ix := BVSub(d.rt, BVLitI(w.instsConst("S0"), 64))
+		results["Dcell0"] = c.Def("res.dcell0", Select(rst.mem["G_sgpr"], ix))
+		results["Dcell1"] = c.Def("res.dcell1", Select(rst.mem["G_sgpr"], BVAdd(ix, BVLitI(1, 64))))
+	}
 	skS, skL := c.Fresh("sk.reg", SBV(64)), c.Fresh("sk.lane", SBV(64))
 	groups := []struct {
 		name string
@@ -637,6 +646,7 @@ func isaObligations(f *Frame, rst *State, ct *Contract, post *Scope) {
 		o := c.Oblige("isa", grp.name, And(rst.reach, applies), And(eqs...), pos,
 			fmt.Sprintf("final %s state equals the state prescribed by ISA entry %s (%s)", grp.name, e.Name, e.Ref))
 		o.Inputs = inputs
+		o.Results = results
 		if grp.name == "regs" {
 			o.Helpers = helpers
 		}
@@ -697,4 +707,16 @@ func (f *Frame) isaInputs(entry *State, e *IsaEntry) map[string]Term {
 		out[opn+".value"] = v
 	}
 	return out
+}
+
+// floatOperandWF: inline float constants are the nine values insts.getOperand
+// produces; the float64 -> float32 conversion ReadOperand applies is pinned on them.
+func (c *Ctx) floatOperandWF(d opDesc) Term {
+	isFloat := Eq(d.ot, BVLitI(c.W.instsConst("FloatOperand"), 64))
+	var alts []Term
+	for _, k := range []float64{0.5, -0.5, 1.0, -1.0, 2.0, -2.0, 4.0, -4.0, 1.0 / (2.0 * math.Pi)} {
+		alts = append(alts, And(Eq(d.flt, BVLitU(math.Float64bits(k), 64)),
+			Eq(c.UF("cvt.f64.f32", SBV(32), d.flt), BVLitU(uint64(math.Float32bits(float32(k))), 32))))
+	}
+	return Implies(isFloat, Or(alts...))
 }
